@@ -29,7 +29,8 @@ ASSUMPTIONS = [
     "drops such declarations without reporting or using them, so there is nothing to expand or fetch; either answer is accepted",
 ]
 ALPHABET = "entry point x family x depth x reference site"
-BOUND = {"quick": "4 entry points x 8 families x depth 1..6 x 3 sites", "thorough": "same"}
+BOUND = {"quick": "4 entry points x 13 families x depth 1..6 x 3 sites; all pairs, triples over 3 entry points x 3 kinds",
+         "thorough": "depth 1..10; every triple over 4 entry points x 5 kinds (8000 sequences)"}
 EXPECT_OUTCOMES = ["refused", "parsed"]
 
 ENTRY = ["ovf", "vbox", "pvs", "hdd"]
@@ -44,8 +45,11 @@ SEQ_KINDS = ["plain", "undeclared-reference", "internal", "laughs", "external-fi
 
 
 def shards(tier):
-    return [{"entry": e} for e in ENTRY] + [{"seq": "pairs", "slice": [i, 4]} for i in range(4)] + \
+    out = [{"entry": e, "tier": tier} for e in ENTRY] + [{"seq": "pairs", "slice": [i, 4]} for i in range(4)] + \
         [{"seq": "triples", "slice": [i, 4]} for i in range(4)]
+    if tier != "quick":
+        out += [{"seq": "triples-full", "slice": [i, 16]} for i in range(16)]
+    return out
 
 
 def run_shard(shard, ctx):
@@ -55,6 +59,8 @@ def run_shard(shard, ctx):
         steps = [(e, k) for e in ENTRY for k in SEQ_KINDS]
         if shard["seq"] == "pairs":
             space = itertools.product(steps, repeat=2)
+        elif shard["seq"] == "triples-full":
+            space = itertools.product(steps, repeat=3)
         else:
             sub = [(e, k) for e in ("pvs", "hdd", "ovf") for k in ("plain", "undeclared-reference", "laughs")]
             space = itertools.product(sub, repeat=3)
@@ -66,7 +72,8 @@ def run_shard(shard, ctx):
                 run_case({"sequence": [list(x) for x in seq], "samestat": samestat}, ctx)
         return
     for fam in FAMILIES:
-        depths = range(1, 7) if fam in ("laughs", "internal", "param-internal", "predefined-case-variant") else (1,)
+        deep = 7 if shard.get("tier", "quick") == "quick" else 11
+        depths = range(1, deep) if fam in ("laughs", "internal", "param-internal", "predefined-case-variant") else (1,)
         for depth in depths:
             for site in SITES:
                 for handle in (("text", "bytes") if shard["entry"] != "hdd" else ("text",)):
